@@ -33,7 +33,7 @@ FLAVOURS = {
                      '-fsanitize=address,undefined',
                      '-fno-sanitize-recover=all'],
                 strip=['-O3']),
-    'trace': dict(cc='clang', cxx='g++',
+    'trace': dict(cc='clang', cxx='clang++',
                   add=['-O1', '-g',
                        '-fsanitize-coverage=func,trace-pc-guard,trace-loads,trace-stores'],
                   strip=['-O3']),
@@ -194,8 +194,6 @@ class Config:
             # assembly: no sanitizer / coverage instrumentation possible
             add = [a for a in add if not a.startswith('-fsanitize')]
             comp = 'gcc'
-        if self.flavour == 'trace' and is_cxx:
-            add = [a for a in add if not a.startswith('-fsanitize-coverage')]
         rel = os.path.relpath(src, REPO).replace('/', '_')
         obj = os.path.join(self.dir, sub, rel + '.o')
         return ([comp] + out + add + list(extra), src, obj)
